@@ -436,6 +436,37 @@ for _pid, _txt in _ALSO.items():
 for _pid, _txt in _ALSO_TECH.items():
     TECHNIQUE[_pid] = TECHNIQUE[_pid] + _txt
 
+_ALSO2 = {
+    "C01": " A routine that adds two networks absorbs or compares their exponents; norm stripped through a temporary view is accrued on the network that survives.",
+    "C03": " A cached attribute derived from another cached attribute is reset with it; a method working on `tn = self if inplace else self.copy()` does not read map-backed structure from `self` after the first write to `tn`; a public method whose siblings return the network does not return the result of a procedure that returns nothing.",
+    "C04": " tensor_multifuse fuses tensors and gauges from the same index sequence.",
+    "C09": " After a compression sweep the centre is moved to `form` from the boundary the sweep ended on; network sums absorb or compare exponents; partial_trace_to_mpo puts the row index on the unconjugated copy.",
+    "C10": " The energy network puts the ket on the MPO's column (lower) indices (today a known finding: the sweeps minimise <psi|H^T|psi>).",
+    "C11": " Every object used as an id() cache key is retained (an entry of self.terms, of another cache, or the caller's argument); step() drains a queued sweep on every exit that advances time; imaginary-time renormalisation uses the tensor the sweep left the centre on.",
+    "C12": " The boundary network handed to a 1D compressor owns its tensors.",
+    "C13": " The arms of the tri-state `normalized` dispatch test the option the same way; operators are attached with their row index on the bra side and reduced density operators carry the row index on the unconjugated copy; a route that builds its value from a slice / selection of the state reads self.exponent when the unnormalised value can be requested.",
+    "C14": " Every BP class calls the shared damping function with (old, new) in the order its definition fixes; every exit of D2BP.gate_ that wrote self.tn re-initialises the dual tensors.",
+    "C17": " Options whose meaningful values include 0 are tested with `is None`; a trailing `a, b, c if flag else d` return is reported when the sibling exits show the whole tuple was meant to be conditional.",
+    "C19": " The simplify pass between Jordan-Wigner transform and Pauli decomposition is unconditional; sibling routes take the coupling-map ordering from the symmetry resolved for this call.",
+}
+_ALSO_TECH2 = {
+    "C01": "; sibling rule over sum routines",
+    "C03": "; derived-attribute invalidation, receiver-staleness (statement order + def-use), return-of-procedure rule",
+    "C04": "; same-sequence binding rule",
+    "C09": "; direction/boundary agreement rule, orientation def-use rule",
+    "C10": "; orientation def-use rule",
+    "C11": "; retained-object provenance for id() keys, symbolic sweep end-point",
+    "C12": "; ownership (copy vs virtual view) rule",
+    "C13": "; sibling guard comparison, orientation def-use rules, exponent-read obligation",
+    "C14": "; argument-order sibling rule against the callee's definition, {clean,dirty} path analysis",
+    "C17": "; truthiness-vs-None rule with positive control, operator-precedence return rule",
+    "C19": "; pipeline-order rule, sibling option-source rule",
+}
+for _pid, _txt in _ALSO2.items():
+    REGISTRY[_pid]["explanation"] = REGISTRY[_pid]["explanation"] + _txt
+for _pid, _txt in _ALSO_TECH2.items():
+    TECHNIQUE[_pid] = TECHNIQUE[_pid] + _txt
+
 from .selftest import make_selftest  # noqa: E402
 
 for _pid, _spec in REGISTRY.items():
